@@ -45,6 +45,83 @@ func genInBoundary(r *hk.Rng) (*Data, *Q, string) {
 
 	// ---- the sub-query
 	dim := hk.Pick(r, []string{"x", "y"})
+	sub, class := boundarySub(r, d, dim)
+
+	// ---- the statement that uses it
+	in := &Cond{Kind: "insub", Dim: dim, Sub: sub}
+	q := &Q{Table: "t", Fields: []Sel{{Name: "a", X: &FX{Kind: "ref", Name: "a"}}, {Name: "b", X: &FX{Kind: "ref", Name: "b"}}}}
+	switch r.Intn(16) {
+	case 10, 11:
+		// the same sub-query text twice: on the same dimension and on another one
+		o := hk.Pick(r, []string{"x", "w", "y"})
+		q.Where = &Cond{Kind: hk.Pick(r, []string{"or", "and"}), Kids: []*Cond{in, {Kind: "insub", Dim: o, Sub: sub}}}
+		if r.Chance(1, 3) {
+			q.Where.Kids[1] = &Cond{Kind: "not", Kids: []*Cond{q.Where.Kids[1]}}
+		}
+		class += ":two-in-same-text"
+	case 12, 13:
+		// two different sub-queries
+		dim2 := "x"
+		if dim == "x" {
+			dim2 = "y"
+		}
+		sub2, _ := boundarySub(r, d, dim2)
+		q.Where = &Cond{Kind: hk.Pick(r, []string{"or", "and"}), Kids: []*Cond{in, {Kind: "insub", Dim: dim2, Sub: sub2}}}
+		class += ":two-in"
+	case 14, 15:
+		// three IN-subqueries, the first and the last textually identical
+		dim2 := "x"
+		if dim == "x" {
+			dim2 = "y"
+		}
+		sub2, _ := boundarySub(r, d, dim2)
+		q.Where = &Cond{Kind: "and", Kids: []*Cond{
+			{Kind: "or", Kids: []*Cond{in, {Kind: "insub", Dim: dim2, Sub: sub2}}},
+			{Kind: "or", Kids: []*Cond{{Kind: "not", Kids: []*Cond{{Kind: "insub", Dim: hk.Pick(r, []string{dim, "w"}), Sub: sub}}}, {Kind: "cmp", Dim: "w", Op: "=", Val: "k"}}}}}
+		class += ":three-in-first-and-last-same-text"
+	case 0, 1:
+		q.Where = &Cond{Kind: "not", Kids: []*Cond{in}}
+	case 2:
+		q.Where = &Cond{Kind: "and", Kids: []*Cond{in, {Kind: "cmp", Dim: "w", Op: "<>", Val: "l"}}}
+	case 3:
+		q.Where = &Cond{Kind: "or", Kids: []*Cond{in, {Kind: "cmp", Dim: "w", Op: "=", Val: "b_k"}}}
+	case 4:
+		// the IN-subquery inside an IN-subquery
+		other := "y"
+		if dim == "y" {
+			other = "x"
+		}
+		mid := &Q{Table: "t", Fields: []Sel{{Name: other, X: &FX{Kind: "ref", Name: other}}}, Where: in,
+			GroupBy: []GB{{Kind: "dim", Name: other, Args: []string{other}}}}
+		q.Where = &Cond{Kind: "insub", Dim: other, Sub: mid}
+		class += ":nested-in"
+	default:
+		q.Where = in
+	}
+	switch r.Intn(4) {
+	case 0:
+		q.GroupBy = []GB{{Kind: "dim", Name: dim, Args: []string{dim}}}
+	case 1:
+		q.GroupBy = []GB{{Kind: "dim", Name: "x", Args: []string{"x"}}, {Kind: "dim", Name: "y", Args: []string{"y"}}}
+	}
+	if r.Chance(1, 5) {
+		// the statement as a FROM-subquery: the leader runs the outer SELECT
+		if len(q.GroupBy) == 0 {
+			q.GroupBy = []GB{{Kind: "dim", Name: "x", Args: []string{"x"}}, {Kind: "dim", Name: "y", Args: []string{"y"}}}
+		}
+		keep := q.GroupBy[0].Name
+		outer := &Q{Sub: q, Fields: []Sel{{Name: "a", X: &FX{Kind: "ref", Name: "a"}}},
+			GroupBy: []GB{{Kind: "dim", Name: keep, Args: []string{keep}}}}
+		q = outer
+		class += ":in-from-subquery"
+	}
+	return d, q, class
+}
+
+// boundarySub generates one sub-query of the boundary class over dimension dim; the tag says
+// whether its GROUP BY covers the partition keys and which clause puts it on the boundary.
+func boundarySub(r *hk.Rng, d *Data, dim string) (*Q, string) {
+	ys := []interface{}{1, 2, 3}
 	sub := &Q{Table: "t", Fields: []Sel{{Name: dim, X: &FX{Kind: "ref", Name: dim}}}}
 	var G []string
 	switch r.Intn(8) {
@@ -92,47 +169,7 @@ func genInBoundary(r *hk.Rng) (*Data, *Q, string) {
 		class += ":plain"
 	}
 
-	// ---- the statement that uses it
-	in := &Cond{Kind: "insub", Dim: dim, Sub: sub}
-	q := &Q{Table: "t", Fields: []Sel{{Name: "a", X: &FX{Kind: "ref", Name: "a"}}, {Name: "b", X: &FX{Kind: "ref", Name: "b"}}}}
-	switch r.Intn(10) {
-	case 0, 1:
-		q.Where = &Cond{Kind: "not", Kids: []*Cond{in}}
-	case 2:
-		q.Where = &Cond{Kind: "and", Kids: []*Cond{in, {Kind: "cmp", Dim: "w", Op: "<>", Val: "l"}}}
-	case 3:
-		q.Where = &Cond{Kind: "or", Kids: []*Cond{in, {Kind: "cmp", Dim: "w", Op: "=", Val: "b_k"}}}
-	case 4:
-		// the IN-subquery inside an IN-subquery
-		other := "y"
-		if dim == "y" {
-			other = "x"
-		}
-		mid := &Q{Table: "t", Fields: []Sel{{Name: other, X: &FX{Kind: "ref", Name: other}}}, Where: in,
-			GroupBy: []GB{{Kind: "dim", Name: other, Args: []string{other}}}}
-		q.Where = &Cond{Kind: "insub", Dim: other, Sub: mid}
-		class += ":nested-in"
-	default:
-		q.Where = in
-	}
-	switch r.Intn(4) {
-	case 0:
-		q.GroupBy = []GB{{Kind: "dim", Name: dim, Args: []string{dim}}}
-	case 1:
-		q.GroupBy = []GB{{Kind: "dim", Name: "x", Args: []string{"x"}}, {Kind: "dim", Name: "y", Args: []string{"y"}}}
-	}
-	if r.Chance(1, 5) {
-		// the statement as a FROM-subquery: the leader runs the outer SELECT
-		if len(q.GroupBy) == 0 {
-			q.GroupBy = []GB{{Kind: "dim", Name: "x", Args: []string{"x"}}, {Kind: "dim", Name: "y", Args: []string{"y"}}}
-		}
-		keep := q.GroupBy[0].Name
-		outer := &Q{Sub: q, Fields: []Sel{{Name: "a", X: &FX{Kind: "ref", Name: "a"}}},
-			GroupBy: []GB{{Kind: "dim", Name: keep, Args: []string{keep}}}}
-		q = outer
-		class += ":in-from-subquery"
-	}
-	return d, q, class
+	return sub, class
 }
 
 // straddlingHaving picks a HAVING condition over SUM(a), SUM(b), the point count or the
